@@ -297,6 +297,7 @@ func runEvCase(c evCase) *evRun {
 		hit, stepFailed := false, beginFailed
 		stepSeen := map[int64]bool{}
 		outs := make([]string, len(s.Ops))
+		hits := make([]bool, len(s.Ops))
 		for i := range s.Ops {
 			r := OpResult{Class: "cancelled"}
 			if i < len(results) {
@@ -342,6 +343,7 @@ func runEvCase(c evCase) *evRun {
 			}
 			if isHit {
 				hit = true
+				hits[i] = true
 			}
 			if r.Class != "none" && r.Class != "cancelled" {
 				stepFailed = true
@@ -361,7 +363,9 @@ func runEvCase(c evCase) *evRun {
 				break
 			}
 			r := results[i]
-			if r.Class == "none" && !o.Dry && !rolledBack && (r.TxID != nil || (o.Kind != "create" && o.Kind != "revert")) {
+			// a replay under an idempotency key wrote nothing: it owns no event (an event it publishes all the same finds no
+			// unused owner below and is reported as published twice)
+			if r.Class == "none" && !o.Dry && !rolledBack && !hits[i] && (r.TxID != nil || (o.Kind != "create" && o.Kind != "revert")) {
 				owners = append(owners, owner{desc: eventDesc(o, r), id: r.LogID})
 			}
 			if r.Class == "none" && !o.Dry {
